@@ -1596,7 +1596,27 @@ func parseTransFile(rel string) (*token.FileSet, *ast.File, error) {
 	return parseFile(rel)
 }
 
+// genTrans wraps translate: when a function of the table cannot be translated, the tie is reported broken
+// (`gen:<table> <reason>`, exit status 1) exactly like a table that cannot be read, but instead of leaving NO file a
+// STUB is written (`funs` knows no function, no `_body` definitions): the theorems about the table then fail to
+// build — as they must — while modules that merely link the table (the CTR driver inside zvdrv) keep compiling, so
+// one untranslatable function does not take the correspondence checks of every other property down with it.
 func genTrans(spec transSpec) func() (string, int, error) {
+	tr := translate(spec)
+	return func() (string, int, error) {
+		lean, rows, err := tr()
+		if err == nil {
+			return lean, rows, nil
+		}
+		fail(spec.table, err)
+		reason := strings.NewReplacer("-/", "- /", "/-", "/ -", "\n", " ").Replace(err.Error())
+		stub := "import ZapVerif.Model.GoMini\n/-! STUB: the translation of this table FAILED on the current source: " + reason + " -/\n" +
+			"namespace ZapVerif.Gen." + spec.table + "\nopen ZapVerif.GoMini\n\ndef funs : String → Option Fun := fun _ => none\n\nend ZapVerif.Gen." + spec.table + "\n"
+		return stub, 0, nil
+	}
+}
+
+func translate(spec transSpec) func() (string, int, error) {
 	return func() (string, int, error) {
 		var sb strings.Builder
 		sb.WriteString("import ZapVerif.Model.GoMini\n")
